@@ -10,6 +10,7 @@ for s in "${seeds[@]}"; do
   d=$SD/$s; [ -f $d/patch.diff ] || continue
   prop=$(python3 -c "import json;print(json.load(open('$d/meta.json'))['property'])")
   props="$prop $(python3 -c "import json;print(' '.join(json.load(open('$d/meta.json')).get('also',[])))")"
+  [ -n "${SELFTEST_ONLY:-}" ] && props="$SELFTEST_ONLY"
   r=/var/tmp/seedrun.$$; rm -rf $r; cp -r /repo $r; git -C $r update-index -q --refresh
   if [ -f $d/rebased.diff ] && grep -q '^+++ b/checkers/rules/rules.go' $d/rebased.diff; then
     (cd $r && git apply $OLDPWD/$d/rebased.diff >/dev/null 2>&1) || { echo "$s: REBASED-PATCH-DOES-NOT-APPLY"; rm -rf $r; continue; }
@@ -31,7 +32,7 @@ for s in "${seeds[@]}"; do
   caught=""
   for p in $props; do
     grep -q "\"property_id\": \"$p\"" MANIFEST.json || continue
-    out=$(VERIF_REPO=$r bin/govc check $p quick 2>&1); rc=$?
+    out=$(VERIF_REPO=$r ${GOVC:-bin/govc} check $p quick 2>&1); rc=$?
     n=$(echo "$out" | grep -c '^VIOLATION')
     if [ $rc -ne 0 ] && [ $rc -ne 1 ]; then echo "$s: ENGINE-ERROR on $p (exit $rc): $(echo "$out" | tail -1 | cut -c1-160)"; fi
     if [ $n -gt 0 ]; then caught="$caught $p($n)"; first=$(echo "$out" | grep '^VIOLATION' | head -1 | sed 's/.*obligation=//' | cut -c1-110); fi
@@ -40,4 +41,4 @@ for s in "${seeds[@]}"; do
   rm -rf $r
 done
 # evidence files were rewritten against scratch copies: restore them from the real tree
-git checkout -- evidence 2>/dev/null
+[ -n "${SELFTEST_ONLY:-}" ] || git checkout -- evidence 2>/dev/null
